@@ -20,6 +20,7 @@ type fprops struct {
 	dflt      *string
 	mandatory *bool
 	minEl     *int
+	presence  *string
 	maxEl     *int
 }
 
@@ -41,6 +42,9 @@ func (p fprops) patch(q fprops) fprops {
 	}
 	if q.maxEl != nil {
 		p.maxEl = q.maxEl
+	}
+	if q.presence != nil {
+		p.presence = q.presence
 	}
 	return p
 }
@@ -67,7 +71,7 @@ func (p fprops) toks() []string {
 		}
 		return fmt.Sprint(*n)
 	}
-	return []string{ob(p.config), os(p.desc), os(p.dflt), ob(p.mandatory), on(p.minEl), on(p.maxEl)}
+	return []string{ob(p.config), os(p.desc), os(p.dflt), ob(p.mandatory), on(p.minEl), on(p.maxEl), os(p.presence)}
 }
 
 func (p fprops) yang(kind string) string {
@@ -89,6 +93,9 @@ func (p fprops) yang(kind string) string {
 	}
 	if p.maxEl != nil {
 		fmt.Fprintf(&b, " max-elements %d;", *p.maxEl)
+	}
+	if p.presence != nil {
+		fmt.Fprintf(&b, " presence %q;", *p.presence)
 	}
 	return b.String()
 }
@@ -230,6 +237,10 @@ func (g *c01gen) props(kind string, configFalseAbove bool, isKey bool) fprops {
 			lo, hi := 1+g.r.Intn(2), 3+g.r.Intn(3)
 			p.minEl, p.maxEl = &lo, &hi
 		}
+	}
+	if kind == "cont" && g.r.Chance(15) {
+		d := core.Pick(g.r, []string{"present", "means something"})
+		p.presence = &d
 	}
 	if kind == "leaf" && !isKey {
 		switch g.r.Intn(5) {
@@ -451,6 +462,10 @@ func (g *c01gen) uses(depth int, cfgFalse bool, within string, siblingNames map[
 				n := 5 + g.r.Intn(4)
 				patch.maxEl = &n
 			}
+		}
+		if t.kind == "cont" && c01special(t.name) == "" && g.r.Chance(30) {
+			d := core.Pick(g.r, []string{"refined presence", "rp"})
+			patch.presence = &d
 		}
 		if !t.isKey && g.r.Chance(20) {
 			f := false
@@ -744,6 +759,10 @@ func c01dump(defs []meta.Definition) string {
 				p.mandatory = &m
 			}
 		}
+		if co, ok := d.(*meta.Container); ok && co.Presence() != "" {
+			s := co.Presence()
+			p.presence = &s
+		}
 		if li, ok := d.(*meta.List); ok {
 			if li.IsMinElementsSet() {
 				n := li.MinElements()
@@ -820,12 +839,12 @@ func (t *c01tr) canon() string {
 		switch t.next() {
 		case "L":
 			name := core.Unhex(t.next())
-			p := []string{t.next(), t.next(), t.next(), t.next(), t.next(), t.next()}
+			p := []string{t.next(), t.next(), t.next(), t.next(), t.next(), t.next(), t.next()}
 			fmt.Fprintf(&b, "leaf %s %s; ", name, strings.Join(p, ","))
 		case "C":
 			k := map[string]string{"c": "cont", "l": "list"}[t.next()]
 			name := core.Unhex(t.next())
-			p := []string{t.next(), t.next(), t.next(), t.next(), t.next(), t.next()}
+			p := []string{t.next(), t.next(), t.next(), t.next(), t.next(), t.next(), t.next()}
 			fmt.Fprintf(&b, "%s %s %s%s; ", k, name, strings.Join(p, ","), t.canon())
 		default:
 			t.bad = true
@@ -898,6 +917,27 @@ func C01(c *core.Ctx) {
 			g.groups = append(g.groups, inner, wrap)
 			body = append(body, &fnode{kind: "cont", name: g.name("c"), kids: []*fnode{{kind: "uses", g: wrap}}}, &fnode{kind: "cont", name: g.name("c"), kids: []*fnode{{kind: "uses", g: wrap}}})
 			c.Count("scenario", "grouping named like the imported grouping it wraps")
+		}
+		// a uses whose augment uses the same grouping again: written outside the grouping, not a recursion
+		if r.Chance(30) {
+			gg := &fgroup{name: g.name("g"), where: core.Pick(r, []string{"module", "sub", "imp"}), uses: 3}
+			gg.yname = gg.name
+			gc := &fnode{kind: "cont", name: g.name("c"), p: g.props("cont", true, false), kids: []*fnode{{kind: "leaf", name: g.name("f"), p: g.props("leaf", true, false)}}}
+			gg.body = []*fnode{gc}
+			g.groups = append(g.groups, gg)
+			body = append(body, &fnode{kind: "cont", name: g.name("c"), kids: []*fnode{{kind: "uses", g: gg, augs: []faug{{path: []string{gc.name}, kids: []*fnode{{kind: "uses", g: gg}}}}}}},
+				&fnode{kind: "cont", name: g.name("c"), kids: []*fnode{{kind: "uses", g: gg}}})
+			c.Count("scenario", "uses whose augment uses the same grouping")
+		}
+		// a leaf with the name of the grouping that is used next to it (groupings have a namespace of their own)
+		if r.Chance(30) {
+			gg := &fgroup{name: g.name("g"), where: core.Pick(r, []string{"module", "sub"}), uses: 2}
+			gg.yname = gg.name
+			gg.body = []*fnode{{kind: "leaf", name: g.name("f"), p: g.props("leaf", true, false)}}
+			g.groups = append(g.groups, gg)
+			body = append(body, &fnode{kind: "cont", name: g.name("c"), kids: []*fnode{{kind: "leaf", name: gg.yname, p: g.props("leaf", true, false)}, {kind: "uses", g: gg}}},
+				&fnode{kind: "cont", name: g.name("c"), kids: []*fnode{{kind: "uses", g: gg}, {kind: "cont", name: gg.yname, kids: []*fnode{{kind: "leaf", name: g.name("f"), p: g.props("leaf", true, false)}}}}})
+			c.Count("scenario", "node named like the grouping used next to it")
 		}
 		// a local grouping that shadows a module-level one: the use next to it gets the local one
 		for _, mg := range g.groups {
